@@ -527,6 +527,9 @@ func (p *Parser) parseBuffer(buf []byte, last bool) error {
 			if b == '-' {
 				p.num.NegExp = true
 			}
+			if 0 < len(p.num.BigBuf) { // a big number is kept as text, sign included
+				p.num.BigBuf = append(p.num.BigBuf, b)
+			}
 			continue
 		case expDigit:
 			p.num.AddExp(b)
